@@ -314,7 +314,7 @@ func caseSexp(mode string, sc Script, res Result) sexp.Node {
 }
 
 type outcome struct {
-	node  sexp.Node
+	line  string
 	panic interface{}
 	stack string
 	first uint64
@@ -324,54 +324,85 @@ func main() {
 	hx.Main(func(h *hx.H) {
 		plans := buildPlans(h.Thorough())
 		root, _ := rng.FromEnv()
-		results := make([]outcome, len(plans))
 		workers := 4 * runtime.GOMAXPROCS(0)
 		if v := os.Getenv("C08_WORKERS"); v != "" {
 			fmt.Sscan(v, &workers)
 		}
-		jobs := make(chan int, len(plans))
-		for i := range plans {
-			if h.Only >= 0 && i != h.Only {
-				continue
+		// Conversations run in parallel; their case lines are handed to hx in index order as they
+		// become available (a window of at most a few hundred results is held in memory).
+		var mu sync.Mutex
+		cond := sync.NewCond(&mu)
+		results := map[int]*outcome{}
+		next := 0 // next index hx will emit
+		jobs := make(chan int)
+		go func() {
+			for i := range plans {
+				if h.Only >= 0 && i != h.Only {
+					continue
+				}
+				mu.Lock()
+				for h.Only < 0 && i > next+8*workers {
+					cond.Wait()
+				}
+				mu.Unlock()
+				jobs <- i
 			}
-			jobs <- i
-		}
-		close(jobs)
-		var wg sync.WaitGroup
+			close(jobs)
+		}()
 		for k := 0; k < workers; k++ {
-			wg.Add(1)
 			go func() {
-				defer wg.Done()
 				for i := range jobs {
+					o := &outcome{}
 					func() {
 						defer func() {
 							if e := recover(); e != nil {
-								results[i].panic = e
-								results[i].stack = string(debug.Stack())
+								o.panic = e
+								o.stack = string(debug.Stack())
 							}
 						}()
 						// the same stream hx hands to the Case closure of index i (checked below)
 						r := root.Fork(uint64(i))
-						results[i].first = root.Fork(uint64(i)).Uint64()
+						o.first = root.Fork(uint64(i)).Uint64()
 						sc := plans[i].make(r)
 						res := runConversation(fmt.Sprint(i), sc)
-						results[i].node = caseSexp(plans[i].mode, sc, res)
+						o.line = caseSexp(plans[i].mode, sc, res).String()
 					}()
+					mu.Lock()
+					results[i] = o
+					cond.Broadcast()
+					mu.Unlock()
 				}
 			}()
 		}
-		wg.Wait()
 		for i := range plans {
 			i := i
-			h.Case(func(r *rng.R) sexp.Node {
-				if results[i].panic != nil {
-					panic(fmt.Sprintf("%v\n%s", results[i].panic, results[i].stack))
+			var o *outcome
+			if h.Only < 0 || i == h.Only {
+				mu.Lock()
+				for results[i] == nil {
+					cond.Wait()
 				}
-				if r.Uint64() != results[i].first {
+				o = results[i]
+				delete(results, i)
+				mu.Unlock()
+			}
+			h.Case(func(r *rng.R) sexp.Node {
+				if o.panic != nil {
+					panic(fmt.Sprintf("%v\n%s", o.panic, o.stack))
+				}
+				if r.Uint64() != o.first {
 					panic("c08: the random stream of the case differs from the one hx hands out")
 				}
-				return results[i].node
+				n, err := sexp.Parse(o.line)
+				if err != nil {
+					panic(err)
+				}
+				return n
 			})
+			mu.Lock()
+			next = i + 1
+			cond.Broadcast()
+			mu.Unlock()
 		}
 	})
 }
